@@ -192,6 +192,7 @@ def tu_worker(arg):
         for c in n.get("inner", []):
             sweep(c)
     records, enums, typedefs, funcs, calls, retag_fns, summ = {}, {}, {}, {}, [], {}, {}
+    local_rows = []
     anon = None
     for n in d.get("inner", []):
         see(n.get("loc"))
@@ -222,8 +223,21 @@ def tu_worker(arg):
             scan_function(n, name, calls, retag_fns, f)
             if not generated:
                 summ[name] = summarise(n, f)
+                e = Esc(name)
+                def coll(x):
+                    if x.get("kind") == "VarDecl" and x.get("storageClass") != "static":
+                        e.locals.add(x["name"])
+                    for c in x.get("inner", []):
+                        coll(c)
+                coll(n)
+                e.run(n)
+                lost = {}
+                for (_, var, alloc, how) in e.rows:
+                    lost.setdefault((var, alloc), []).append(how)
+                for (var, alloc) in sorted(set(e.tracked)):
+                    local_rows.append(dict(file=f, fn=name, var=var, alloc=alloc, lost=sorted(set(lost.get((var, alloc), [])))))
         sweep_rest(n, see)
-    return dict(file=rel, records=records, enums=enums, typedefs=typedefs, funcs=funcs, calls=calls, retag_fns=retag_fns, summ=summ)
+    return dict(file=rel, records=records, enums=enums, typedefs=typedefs, funcs=funcs, calls=calls, retag_fns=retag_fns, summ=summ, local_rows=local_rows)
 
 def rhs_kind(rhs):
     r = strip_casts(rhs)
@@ -386,7 +400,7 @@ class Tab:
     def __init__(self, src, parts):
         self.src = src
         self.records, self.enums, self.typedefs, self.funcs = {}, {}, {}, {}
-        self.calls, self.retag_fns, self.summ = [], {}, {}
+        self.calls, self.retag_fns, self.summ, self.local_rows = [], {}, {}, []
         self.problems = []
         for p in parts:
             for k, v in p["records"].items():
@@ -407,6 +421,7 @@ class Tab:
                 self.retag_fns.setdefault(k, v)
             for k, v in p["summ"].items():
                 self.summ.setdefault(k, v)
+            self.local_rows += p["local_rows"]
         self.const_enum = {}
         for en, cs in self.enums.items():
             for c in cs:
@@ -1341,6 +1356,180 @@ class RetagWalker(Walker):
                             copied=any(e[0] == "copy" for e in ev)))
         return out
 
+# ------------------------------------------------------------------ local allocations (escape analysis)
+#
+# For every function of the tree: a LOCAL variable that receives a fresh allocation (malloc/calloc/strdup/realloc/`*_new*`) must, on
+# every path to the end of the function (structured walk: if/else, switch with fall-through, loops taken zero times or once, early
+# returns; `if (p == NULL)` refines), be CONSUMED: passed to a function other than a known read-only libc function, stored into a
+# member / element / through a pointer / another variable, or returned.  `lost` rows name the first way a path loses it
+# (`return`, `end`, `loop` = allocated in a loop body and not consumed there, `overwritten`).  May-analysis: one losing path suffices.
+
+ESC_ALLOC = ("malloc", "calloc", "strdup", "strndup", "realloc")
+NONCONSUMING = ("memset", "memcpy", "memmove", "strcpy", "strncpy", "strcat", "strncat", "sprintf", "snprintf", "vsnprintf", "printf", "fprintf",
+                "strlen", "strcmp", "strncmp", "fgets", "fread", "fwrite", "sscanf", "atoi", "atof", "puts", "fputs", "__assert_fail")
+def is_alloc_call(e):
+    e0 = strip_casts(e)
+    if e0.get("kind") == "CallExpr":
+        fn = callee_name(e0)
+        if fn in ESC_ALLOC or (fn and ("_new" in fn)):
+            return fn
+    return None
+
+def uses(e, names, acc):
+    """vars of `names` that occur in e as: call argument / stored somewhere / returned (consumed)"""
+    k = e.get("kind")
+    if k == "DeclRefExpr" and e.get("referencedDecl", {}).get("name") in names:
+        acc.add(e["referencedDecl"]["name"])
+    for c in e.get("inner", []):
+        uses(c, names, acc)
+
+class Esc:
+    def __init__(self, fn):
+        self.fn = fn; self.rows = []; self.tracked = []; self.locals = set()
+    def run(self, decl):
+        body = [c for c in decl["inner"] if c.get("kind") == "CompoundStmt"][0]
+        st = self.stmt(body, frozenset())
+        if st is not None:
+            for v in st: self.rows.append((self.fn, v[0], v[1], "end"))
+    def consume_expr(self, e, st):
+        """an expression statement / condition: calls taking the var, stores of the var into an lvalue other than a local"""
+        live = {v[0] for v in st}
+        if not live: return st
+        gone = set()
+        def go(n, in_call):
+            k = n.get("kind")
+            if k == "CallExpr":
+                cn = callee_name(n)
+                for a in n["inner"][1:]:
+                    if cn in NONCONSUMING:
+                        go(a, False)
+                    else:
+                        acc = set(); uses(a, live, acc); gone.update(acc)
+                go(n["inner"][0], False); return
+            if k == "BinaryOperator" and n.get("opcode") == "=":
+                lhs, rhs = n["inner"]
+                l0 = strip(lhs)
+                acc = set(); uses(rhs, live, acc)
+                r0 = strip_casts(rhs)
+                direct = r0.get("kind") == "DeclRefExpr" and r0["referencedDecl"].get("name") in live
+                if direct and l0.get("kind") != "DeclRefExpr":
+                    gone.add(r0["referencedDecl"]["name"])      # stored into a member / element / *out
+                elif direct and l0.get("kind") == "DeclRefExpr":
+                    gone.add(r0["referencedDecl"]["name"])      # copied to another local / global: give up tracking (conservative: consumed)
+                go(rhs, False); return
+            for c in n.get("inner", []): go(c, in_call)
+        go(e, False)
+        return frozenset(v for v in st if v[0] not in gone)
+    def null_test(self, cond):
+        """(var, sense): cond true implies var == NULL (sense 'null') or var != NULL ('nonnull')"""
+        c = strip(cond)
+        if c.get("kind") == "BinaryOperator" and c.get("opcode") in ("==", "!="):
+            a, b = c["inner"]
+            if is_null_deep(b):
+                a0 = strip(a)
+                if a0.get("kind") == "DeclRefExpr":
+                    return a0["referencedDecl"]["name"], ("null" if c["opcode"] == "==" else "nonnull")
+        if c.get("kind") == "UnaryOperator" and c.get("opcode") == "!":
+            a0 = strip(c["inner"][0])
+            if a0.get("kind") == "DeclRefExpr": return a0["referencedDecl"]["name"], "null"
+        if c.get("kind") == "DeclRefExpr": return c["referencedDecl"]["name"], "nonnull"
+        return None, None
+    def stmt(self, s, st):
+        """returns the state after s, or None when control does not continue (return)"""
+        if st is None: return None
+        k = s.get("kind")
+        if k == "CompoundStmt":
+            for c in s.get("inner", []):
+                st = self.stmt(c, st)
+                if st is None: return None
+            return st
+        if k == "DeclStmt":
+            for v in s.get("inner", []):
+                if v.get("kind") == "VarDecl" and v.get("inner"):
+                    init = v["inner"][-1]
+                    st = self.consume_expr(init, st)
+                    fn = is_alloc_call(init)
+                    if fn and norm_type(qual(v))[1] >= 1 and v.get("storageClass") != "static":
+                        st = frozenset(set(st) | {(v["name"], fn)})
+                        self.tracked.append((v["name"], fn))
+            return st
+        if k == "ReturnStmt":
+            if s.get("inner"): st = self.consume_expr(s["inner"][0], st)
+            if s.get("inner"):
+                acc = set(); uses(s["inner"][0], {v[0] for v in st}, acc)
+                st = frozenset(v for v in st if v[0] not in acc)
+            for v in st: self.rows.append((self.fn, v[0], v[1], "return"))
+            return None
+        if k == "IfStmt":
+            inner = s["inner"]; cond = inner[0]
+            st = self.consume_expr(cond, st)
+            var, sense = self.null_test(cond)
+            st_then = st; st_else = st
+            if var is not None:
+                if sense == "null": st_then = frozenset(v for v in st if v[0] != var)
+                else: st_else = frozenset(v for v in st if v[0] != var)
+            a = self.stmt(inner[1], st_then)
+            b = self.stmt(inner[2], st_else) if len(inner) > 2 else st_else
+            if a is None: return b
+            if b is None: return a
+            return a | b
+        if k in ("WhileStmt", "DoStmt", "ForStmt"):
+            # loop body once (allocations made in the body must be consumed in the body), plus zero times
+            parts = [c for c in s.get("inner", []) if c]
+            body = parts[-1] if k != "DoStmt" else parts[0]
+            for c in parts:
+                if c is not body: st = self.consume_expr(c, st)
+            a = self.stmt(body, st)
+            if a is None: return st
+            new = a - st
+            for v in new: self.rows.append((self.fn, v[0], v[1], "loop"))
+            return frozenset(a & st) | frozenset(x for x in st)
+        if k == "SwitchStmt":
+            st = self.consume_expr(s["inner"][0], st)
+            body = s["inner"][1]
+            outs = []
+            cur = None
+            def flat(n, out):
+                if n.get("kind") in ("CaseStmt", "DefaultStmt"):
+                    out.append(("label",)); flat(n["inner"][-1], out)
+                else: out.append(("stmt", n))
+            seq = []
+            for c in body.get("inner", []): flat(c, seq)
+            cur = None; has_default = any(c.get("kind") == "DefaultStmt" for c in body.get("inner", []))
+            for x in seq:
+                if x[0] == "label":
+                    cur = st if cur is None else (cur | st)
+                else:
+                    if x[1].get("kind") == "BreakStmt":
+                        if cur is not None: outs.append(cur)
+                        cur = None
+                    elif cur is not None:
+                        cur = self.stmt(x[1], cur)
+            if cur is not None: outs.append(cur)
+            outs.append(st)
+            r = frozenset()
+            for o in outs: r = r | o
+            return r
+        if k in ("BreakStmt", "ContinueStmt", "NullStmt", "LabelStmt", "GotoStmt"):
+            return st
+        # expression statement
+        e = strip(s)
+        if e.get("kind") == "BinaryOperator" and e.get("opcode") == "=":
+            lhs, rhs = e["inner"]
+            l0 = strip(lhs)
+            fn = is_alloc_call(rhs)
+            st = self.consume_expr(e, st)
+            if fn and l0.get("kind") == "DeclRefExpr" and l0["referencedDecl"].get("kind") == "VarDecl" and "id" in l0["referencedDecl"]:
+                name = l0["referencedDecl"]["name"]
+                if name in self.locals:
+                    for v in st:
+                        if v[0] == name: self.rows.append((self.fn, name, v[1], "overwritten"))
+                    st = frozenset({v for v in st if v[0] != name} | {(name, fn)})
+                    self.tracked.append((name, fn))
+            return st
+        return self.consume_expr(s, st)
+
+
 # ------------------------------------------------------------------ offsets
 
 def offsets(src, wanted):
@@ -1689,7 +1878,8 @@ def extract(src, jobs=8):
     return dict(structs=[dict(name=st, deleter=s["deleter"], file=s["file"], tag_path=s["tag_path"], tag_enum=s["tag_enum"], tags=s["tags"],
                               is_array=s["is_array"], opaque=s["opaque"]) for st, s in sorted(structs.items())],
                 fields=field_rows, dels=del_rows, ctors=ctor_rows, retags=uniq, late=late_rows, builders=sorted(builders), helpers=sorted(helpers),
-                foreign=sorted(foreign), raw_ctors=sorted(raw_ctors), wild=sorted(wild), problems=problems, files=len(files))
+                foreign=sorted(foreign), raw_ctors=sorted(raw_ctors), wild=sorted(wild), problems=problems, files=len(files),
+                locals=sorted(tab.local_rows, key=lambda r: (r["file"], r["fn"], r["var"], r["alloc"])))
 
 # ------------------------------------------------------------------ Lean output
 
@@ -1785,7 +1975,10 @@ def render(t):
          "structure Retag where", "  fn : Nat", "  struct : Nat", "  tag : Nat", "  frm : List Nat", "  fresh : Bool", "  released : List (Nat × Nat)", "  stored : List (Nat × Nat × Src × Nat)",
          "  copied : Bool", "  count : Nat", "  name : String", "  deriving Repr", "",
          "/-- stores into a pointer member outside constructors and delete functions (`x->member = …` / `x[i].member = …` with x a variable), by kind of source -/",
-         "structure Late where", "  field : Nat", "  src : Src", "  fns : String", "  deriving Repr", ""]
+         "structure Late where", "  field : Nat", "  src : Src", "  fns : String", "  deriving Repr", "",
+         "/-- a local variable that receives a fresh allocation (malloc/calloc/strdup/realloc/`*_new*`) in some function: `lost` = on some path to the",
+         "end of the function it is neither passed to a function (read-only libc functions aside), nor stored anywhere, nor returned -/",
+         "structure LocalAlloc where", "  lost : Bool", "  name : String", "  deriving Repr", ""]
     C = []
     for i, n in enumerate(types):
         const("S", n, i, C)
@@ -1863,6 +2056,9 @@ def render(t):
           "def dels : List Del := [", ",\n".join(D), "]", "",
           "def fields : List Field := dels.flatMap (·.fields)", "", "def ctors : List Ctor := dels.flatMap (·.ctors)", "",
           "def retags : List Retag := [", ",\n".join(R), "]", "", "def lates : List Late := [", ",\n".join(LT), "]", "",
+          "def localAllocs : List LocalAlloc := [",
+          ",\n".join("  ⟨%s, %s⟩" % (lb(bool(r["lost"])), ls("%s  (%s): %s = %s(…)%s" % (r["fn"], r["file"], r["var"], r["alloc"], (" LOST on: " + ", ".join(r["lost"])) if r["lost"] else ""))) for r in t["locals"]),
+          "]", "",
           "/-- functions of the `*_new*` family that allocate no node of their own (they combine other constructors) -/",
           "def builders : List String := " + ll(t["builders"], ls), "",
           "/-- functions of the `*_delete*` family that do not free their parameter and are inlined into the delete function that calls them -/",
